@@ -1,18 +1,35 @@
 """C03 Billed attempt time is monotone and bounded — T tie: the clamp trigger `attempts_before_update` and the billed-duration
 expressions of the two billing triggers are re-translated from the SQL text on every run into Generated/AttemptsTrigger.lean; the
-theorems of Props/C03.lean are about exactly those definitions.  C tie (cross-check of the translator): the same SQL is executed by
-the minisql interpreter (when available) on random (old, new) rows and compared with the Lean driver."""
+theorems of Props/C03.lean are about exactly those definitions.  C tie (cross-check of the translator and of the billing model
+Model/AttemptBilling.lean), three layers of cases, all executed by the minisql interpreter on the verbatim SQL of the working tree:
+  * {'old', 'new'}           one UPDATE of a one-row `attempts` table with only attempts_before_update installed (accepted row);
+  * {'old', 'new', 'res'}    the trigger TRIO on one attempt: `attempt_resources` rows of the given quantities are inserted while the
+                             stored row is `old` (attempt_resources_after_insert bills it), then the UPDATE proposing `new` fires
+                             attempts_before_update + attempts_after_update; the usage the four aggregated_*_v3 tables hold per
+                             resource is what the attempt is actually billed;
+  * {'hist': [ops]}          a history of one attempt through the REAL procedures / python driver functions (harness/batchdb World:
+                             mark_job_creating / mark_job_started / mark_job_complete, unschedule_job, deactivate_instance,
+                             add_attempt_resources, billing_update_1) with independent worker / driver clocks, so reports whose end
+                             lies before the recorded start, late duplicates and stale heartbeats arise as they do in production.
+The oracle states the property on the stored row AND on the billed amount read back from the aggregated tables."""
 import json
 import os
 import re
 
 from ..extract import sqlsrc, sqltrig
-from ..framework import LEAN, Prop, TieBroken, write_if_changed
+from ..framework import LEAN, MachineryError, Prop, TieBroken, generic_shrink_list, write_if_changed
 
 FIELDS = ['start_time', 'rollup_time', 'end_time', 'reason']
 COLTYPES = {'start_time': 'int', 'rollup_time': 'int', 'end_time': 'int', 'reason': 'str',
             'cur_rollup_time': 'int', 'cur_start_time': 'int'}
 REASONS = [None, 'activation_timeout', 'completed', 'deactivated', 'cancelled', 'preempted']
+TIMES = [None, 0, 1, 2, 3, 4, 5, 6]
+QUANTITIES = [1, 2, 3, 5, 1000, 3840]
+# history layer: one batch with one 1000 mcpu job, one 16-core pool instance, attempt att1 scheduled on it (harness/batchdb/SPEC.md ops)
+PRELUDE = ['createBatch 1 1 1', 'createUpdate 1 1 1 0 1', 'insertJobs 1 1 1 1;;;0;0;0;1000;0', 'commit 1 1', 'newInstance 1 16000 1',
+           'activate 1', 'schedule 1 1 1 1']
+AGG_TABLES = ('aggregated_job_resources_v3', 'aggregated_job_group_resources_v3',
+              'aggregated_billing_project_user_resources_v3', 'aggregated_billing_project_user_resources_by_date_v3')
 
 
 def find_set_expr(text, var):
@@ -29,20 +46,30 @@ class C03(Prop):
     engine = 'E1-batchdb'
     design_ref = 'DESIGN.md §4 C03'
     technique = ('translator (SQL trigger body -> Lean definition, regenerated from /repo on every run) + Lean 4 theorems about the '
-                 'generated definition for all old/new rows, lifted to all update sequences by induction')
+                 'generated definition for all old/new rows, lifted to all update sequences by induction; differential correspondence of the '
+                 'generated definitions and the billing model with the verbatim triggers / the real procedures executed by minisql')
     level_text = ('The clamp trigger attempts_before_update and the billed-duration expressions of attempts_after_update / '
                   'attempt_resources_after_insert are translated from the current SQL text into Lean; theorems hold for ALL old rows, '
                   'ALL proposed new rows and hence all sequences of reports: billed >= 0, billed <= max(0, end-start) once ended, '
                   'billed non-decreasing unless the report moves the end earlier (an un-ended attempt counts as ending at +infinity) '
-                  'or carries activation_timeout, start only moves earlier, end only earlier once a reason is stored.')
+                  'or carries activation_timeout, start only moves earlier, end only earlier once a reason is stored; and for every history of '
+                  'reports and resource registrations of one attempt the usage the aggregated tables hold per resource is quantity x billed(row) '
+                  '(seq_usage_eq), hence never negative (seq_usage_nonneg) and at most quantity x max(0, end-start) once ended (usage_le_span).')
     level_note = ('Trusted: the SQL->Lean translator (harness/extract/sqltrig.py; cross-checked against the minisql interpreter when it '
                   'is present), the Sql3 model of MySQL NULL/three-valued scalar semantics, MySQL firing BEFORE UPDATE triggers on '
                   'every UPDATE of attempts. Rows are inserted with all-NULL times (add_attempt).')
-    rule = ('cases = (old row, proposed new row) over times {NULL, 0..6} and reasons {NULL, activation_timeout, completed, …}; '
-            'non-trivial = at least one clamp fires (accepted row differs from the proposed row); distinct by full case')
+    rule = ('cases = (old row, proposed new row[, quantities of the attempt_resources rows]) over times {NULL, 0..6} and reasons {NULL, '
+            'activation_timeout, completed, …}; 45 % of the proposals have the shape one of the procedures issues (started/creating, heartbeat, '
+            'unschedule, deactivate, complete) with an independent clock reading, 70 % of the cases run the trigger trio with 1-3 resources; one '
+            'history of 2-9 real driver ops on one attempt (clock readings 1..7 drawn independently per op) per 20 pair cases; '
+            'non-trivial = at least one clamp fires, or resources are registered, or a history; distinct by full case')
     trusted = ['harness/extract/sqltrig.py translator (subset: IF/SET over OLD/NEW, integer/string scalars, GREATEST/COALESCE)',
-               'Sql3.lean model of MySQL scalar NULL semantics']
-    budget = {'quick': 3000, 'thorough': 60000}
+               'Sql3.lean model of MySQL scalar NULL semantics',
+               'harness/minisql (SEMANTICS list) executing the verbatim trigger / procedure text; harness/minisql/trigger_eval.py seeding of '
+               'the stored row and filler rows of globals/batches/jobs/job_group_self_and_ancestors',
+               'harness/batchdb/world.py mapping of history ops to the real driver functions (shared with C01-C10)']
+    budget = {'quick': 3000, 'thorough': 40000}
+    search_budget = {'quick': 4000, 'thorough': 40000}
 
     def generate(self, repo):
         f1, trig = sqlsrc.last_definition('TRIGGER', 'attempts_before_update', repo)
@@ -83,36 +110,208 @@ end HailVerif.Generated.AttemptsTrigger
         self._files = (f1, f2, f3)
         return [f'T: attempts_before_update from {f1}, msec_diff_rollup from {f2} and {f3}; generated file {"rewritten" if changed else "unchanged"}']
 
-    # ---- cross-check of the translator against the SQL interpreter -----------------------------------------
+    # ---- the real SQL, executed ----------------------------------------------------------------------------
     def setup(self, repo):
+        self.repo = repo
         self.mini = None
+        self.bill = None
+        self._hist_cache = {}
         try:
             from ..minisql import trigger_eval  # provided by harness/minisql when built
+        except Exception:
+            return          # minisql unavailable: the independent AST evaluator below covers the {'old','new'} layer only
+        try:
             self.mini = trigger_eval.before_update_evaluator(repo, 'attempts', 'attempts_before_update')
         except Exception:
             self.mini = None
+        self.bill = trigger_eval.attempt_billing_evaluator(repo)
+        from .. import loader
+        loader.install(repo)
+        from ..batchdb import world
+        self.world = world
+        world.World(0, repo).close()     # imports + schema extraction once
 
-    def cases(self, rng, n, tier):
-        times = [None, 0, 1, 2, 3, 4, 5, 6]
-        for _ in range(n):
-            def row():
-                return [rng.choice(times), rng.choice(times), rng.choice(times), rng.choice(REASONS)]
-            old = row()
-            new = row()
+    # ---- cases ---------------------------------------------------------------------------------------------
+    @staticmethod
+    def random_row(rng):
+        return [rng.choice(TIMES), rng.choice(TIMES), rng.choice(TIMES), rng.choice(REASONS)]
+
+    @staticmethod
+    def proposal(rng, old):
+        """a proposed row of the shape one of the procedures issues for the stored row `old`, with its own clock reading"""
+        t = rng.choice(TIMES[1:])
+        k = rng.choice(['started', 'started', 'creating', 'heartbeat', 'heartbeat', 'unschedule', 'unschedule', 'deactivate', 'complete', 'complete'])
+        if k in ('started', 'creating'):        # SET start_time = t, rollup_time = t
+            return [t, t, old[2], old[3]]
+        if k == 'heartbeat':                    # SET rollup_time = t
+            return [old[0], t, old[2], old[3]]
+        if k == 'unschedule':                   # SET rollup_time = t, end_time = t, reason = 'cancelled'
+            return [old[0], t, t, 'cancelled']
+        if k == 'deactivate':                   # SET rollup_time = t, end_time = t, reason = <reason>
+            return [old[0], t, t, rng.choice(REASONS[1:])]
+        st = rng.choice(TIMES)                  # mark_job_complete: SET start_time = s, rollup_time = e, end_time = e, reason = r
+        return [st, t, t, rng.choice(REASONS[1:])]
+
+    def pair_case(self, rng):
+        old = self.random_row(rng)
+        if rng.random() < 0.5:
+            # a stored row the triggers can have produced (rollup <= end), more often than not with a start
+            if old[0] is None and rng.random() < 0.6:
+                old[0] = rng.choice(TIMES[1:])
+            if old[1] is not None and old[2] is not None and old[1] > old[2]:
+                old[1] = old[2]
+        if rng.random() < 0.45:
+            new = self.proposal(rng, old)
+        else:
+            new = self.random_row(rng)
             # most real updates keep some columns: copy old values with some probability
             for i in range(4):
                 if rng.random() < 0.35:
                     new[i] = old[i]
-            yield {'old': old, 'new': new}
+        c = {'old': old, 'new': new}
+        if self.bill is not None and rng.random() < 0.7:
+            c['res'] = [rng.choice(QUANTITIES) for _ in range(rng.choice([1, 1, 2, 2, 3]))]
+        return c
+
+    def hist_case(self, rng):
+        t = lambda: rng.randint(1, 7)      # noqa: E731  independent clock readings: the worker's and the driver's clocks are not synchronised
+        ops = []
+        for _ in range(rng.randint(2, 8)):
+            k = rng.choice(['started', 'started', 'started', 'creating', 'heartbeat', 'heartbeat', 'unschedule', 'unschedule',
+                            'deactivate', 'complete', 'complete', 'resources'])
+            if k in ('started', 'creating'):
+                ops.append(f'{k} 1 1 1 1 {t()} 0')
+            elif k == 'heartbeat':
+                ops.append(f'heartbeat {t()} 0 1:1:1')
+            elif k == 'unschedule':
+                ops.append(f'unschedule 1 1 1 1 {t()} cancelled 0')
+            elif k == 'deactivate':
+                ops.append(f'deactivate 1 {rng.choice(REASONS[1:])} {t()} 0')
+            elif k == 'complete':
+                st = 'N' if rng.random() < 0.2 else t()
+                en = 'N' if rng.random() < 0.1 else t()
+                ops.append(f'complete 1 1 1 1 {rng.choice(["Success", "Failed", "Error"])} {st} {en} {rng.choice(REASONS[1:])} 0')
+            else:
+                ops.append(self.resources_op(rng))
+        if rng.random() < 0.85 and not any(o.startswith('addResources') for o in ops[:3]):
+            ops.insert(rng.randint(0, min(2, len(ops))), self.resources_op(rng))
+        return {'hist': ops}
+
+    @staticmethod
+    def resources_op(rng):
+        return 'addResources 1 1 1 0 ' + ' '.join(f'{r}:{rng.choice(QUANTITIES)}' for r in rng.sample([1, 2, 3], rng.randint(1, 2)))
+
+    DIRECTED = [
+        # worker clock ahead of the driver clock: start reported at 5, the attempt is ended at 3 while resources exist
+        {'old': [5, 5, None, None], 'new': [5, 3, 3, 'cancelled'], 'res': [1000, 3840]},
+        {'old': [5, 3, 3, 'cancelled'], 'new': [1, 1, 3, 'cancelled'], 'res': [2]},
+        {'old': [4, 6, None, None], 'new': [4, 2, 2, 'preempted'], 'res': [3]},
+        {'hist': ['started 1 1 1 1 5 0', 'addResources 1 1 1 0 1:1000 2:3840', 'unschedule 1 1 1 1 3 cancelled 0', 'started 1 1 1 1 1 0',
+                  'heartbeat 6 0 1:1:1']},
+        {'hist': ['addResources 1 1 1 0 1:2', 'started 1 1 1 1 6 0', 'deactivate 1 preempted 4 0', 'complete 1 1 1 1 Failed 2 7 completed 0']},
+    ]
+
+    def cases(self, rng, n, tier):
+        if self.bill is not None:
+            yield from self.DIRECTED
+        for i in range(n):
+            yield self.pair_case(rng)
+            if self.bill is not None and i % 20 == 0:
+                yield self.hist_case(rng)
+
+    def search_cases(self, rng, n, hint):
+        return self.cases(rng, n, 'thorough')
 
     @staticmethod
     def enc(v):
         return 'N' if v is None else str(v)
 
+    # ---- history layer: the real procedures --------------------------------------------------------------------
+    def run_hist(self, c):
+        """[{op, ans, old, new}] with old/new = (row | None, [(resource id, quantity)], {table: {resource id: usage}}) around each op"""
+        key = json.dumps(c['hist'])
+        if key in self._hist_cache:
+            return self._hist_cache[key]
+        w = self.world.World(0, self.repo)
+
+        def observe():
+            T = w.db.tables
+            rows = [r for r in T['attempts'] if r['attempt_id'] == 'att1']
+            row = [rows[0][f] for f in FIELDS] if rows else None
+            res = sorted((r['deduped_resource_id'], r['quantity']) for r in T['attempt_resources'] if r['attempt_id'] == 'att1')
+            usage = {}
+            for t in AGG_TABLES:
+                u = {}
+                for r in T[t]:
+                    u[r['resource_id']] = u.get(r['resource_id'], 0) + r['usage']
+                usage[t] = u
+            return row, res, usage
+        steps = []
+        try:
+            for op in PRELUDE:
+                if w.apply(op).split()[0] != 'ok':
+                    raise MachineryError(f'C03 history prelude: {op} was refused')
+            prev = observe()
+            for op in c['hist']:
+                ans = w.apply(op)
+                cur = observe()
+                steps.append({'op': op, 'ans': ans, 'old': prev, 'new': cur})
+                prev = cur
+        except self.world.MachineryFailure as e:
+            raise MachineryError(f'C03 history: {e}')
+        finally:
+            w.close()
+        if len(self._hist_cache) > 5000:
+            self._hist_cache.clear()
+        self._hist_cache[key] = steps
+        return steps
+
+    @staticmethod
+    def job_usage(obs):
+        """usage per resource of the attempt (aggregated_job_resources_v3), in resource id order"""
+        _, res, usage = obs
+        return [usage['aggregated_job_resources_v3'].get(rid, 0) for rid, _ in res]
+
     def model_lines(self, c):
-        return ['upd ' + ' '.join(self.enc(v) for v in c['old'] + c['new'])]
+        if 'hist' in c:
+            lines = []
+            for st in self.run_hist(c):
+                (r0, res0, _), (r1, res1, _) = st['old'], st['new']
+                if r0 is None or r1 is None:
+                    raise MachineryError('C03 history: attempt att1 is missing after the prelude')
+                if st['op'].startswith('addResources') and not res0:
+                    lines.append(f'ins {self.enc(r0[0])} {self.enc(r0[1])} ' + ' '.join(str(q) for _, q in res1))
+                else:
+                    lines.append(f'delta {self.enc(r0[0])} {self.enc(r0[1])} {self.enc(r1[0])} {self.enc(r1[1])} ' + ' '.join(str(q) for _, q in res0))
+            return [ln.rstrip() for ln in lines]
+        rows = ' '.join(self.enc(v) for v in c['old'] + c['new'])
+        if 'res' in c:
+            return ['upd ' + rows, 'bill ' + rows + ' ' + ' '.join(str(q) for q in c['res'])]
+        return ['upd ' + rows]
 
     def impl(self, c):
+        if 'hist' in c:
+            self._hist_cache.pop(json.dumps(c['hist']), None)
+            out = []
+            for st in self.run_hist(c):
+                if st['op'].startswith('addResources') and not st['old'][1]:
+                    out.append(','.join(str(u) for u in self.job_usage(st['new'])))
+                else:
+                    # resources present before the op (a later addResources of other resources would be billed by the insert trigger,
+                    # the generator registers resources once per attempt as add_attempt_resources' callers do)
+                    before = dict(zip([rid for rid, _ in st['old'][1]], self.job_usage(st['old'])))
+                    after = st['new'][2]['aggregated_job_resources_v3']
+                    out.append(','.join(str(after.get(rid, 0) - before[rid]) for rid, _ in st['old'][1]))
+            return out
+        if 'res' in c:
+            row, u0, u1 = self.bill(dict(zip(FIELDS, c['old'])), dict(zip(FIELDS, c['new'])), c['res'])
+
+            def show(u):
+                first = u[AGG_TABLES[0]]
+                if all(u[t] == first for t in AGG_TABLES):
+                    return ','.join(str(x) for x in first)
+                return 'tables-differ:' + ';'.join(t + '=' + ','.join(str(x) for x in u[t]) for t in AGG_TABLES)
+            return [' '.join(self.enc(row[f]) for f in FIELDS), f'ins={show(u0)} upd={show(u1)}']
         if self.mini is None:
             return self._py_reference(c)
         r = self.mini(dict(zip(FIELDS, c['old'])), dict(zip(FIELDS, c['new'])))
@@ -128,20 +327,14 @@ end HailVerif.Generated.AttemptsTrigger
         r = sqleval.run_before_update(stmts, dict(zip(FIELDS, c['old'])), dict(zip(FIELDS, c['new'])))
         return [' '.join(self.enc(r[f]) for f in FIELDS)]
 
+    # ---- oracle --------------------------------------------------------------------------------------------------
     @staticmethod
     def billed(row):
         s, r = row[0], row[1]
         return 0 if s is None or r is None else max(0, r - s)
 
-    def oracle(self, c, out):
-        if out[0].startswith('IMPL-EXC'):
-            return out[0]
-        acc = [None if t == 'N' else (t if i == 3 else int(t)) for i, t in enumerate(out[0].split(' '))]
-        old, new = c['old'], c['new']
-        # the oracle states the step properties for rows satisfying the stored-row invariant (rollup <= end when both set),
-        # which every accepted row satisfies; unreachable `old` rows are skipped
-        if old[1] is not None and old[2] is not None and old[1] > old[2]:
-            return None
+    def step_oracle(self, old, acc, timeout, rollup_null, ctx):
+        """the property on one report: `old` stored row, `acc` the row stored afterwards"""
         b0, b1 = self.billed(old), self.billed(acc)
         if b1 < 0:
             return 'billed negative'
@@ -149,26 +342,132 @@ end HailVerif.Generated.AttemptsTrigger
             return f'billed {b1} exceeds end-start for accepted row {acc}'
         if acc[1] is not None and acc[2] is not None and acc[1] > acc[2]:
             return f'accepted row {acc} has rollup after end'
-        timeout = new[3] == 'activation_timeout'
         end_earlier = acc[2] is not None and (old[2] is None or acc[2] < old[2])
-        rollup_null = new[1] is None   # no statement in the repo proposes a NULL rollup over a non-NULL one except via NULL parameters
         if b1 < b0 and not (timeout or end_earlier or rollup_null):
-            return f'billed decreased {b0} -> {b1} without an earlier end or activation timeout: old={old} new={new} accepted={acc}'
+            return f'billed decreased {b0} -> {b1} without an earlier end or activation timeout: old={old} {ctx} accepted={acc}'
         if old[0] is not None and not timeout and (acc[0] is None or acc[0] > old[0]):
-            return f'start moved later or was erased: old={old} new={new} accepted={acc}'
+            return f'start moved later or was erased: old={old} {ctx} accepted={acc}'
         if old[3] is not None:
             same = acc[2] == old[2] and acc[3] == old[3]
             earlier = old[2] is not None and acc[2] is not None and acc[2] < old[2]
             if not (same or earlier):
-                return f'end/reason changed after a reason was stored: old={old} new={new} accepted={acc}'
+                return f'end/reason changed after a reason was stored: old={old} {ctx} accepted={acc}'
+        return None
+
+    def usage_oracle(self, old, acc, quantities, before, after, timeout, rollup_null, ctx, table='the aggregated tables'):
+        """the property on what is actually billed: `before` / `after` = usage recorded per resource around the report.
+        The billed duration of the attempt as the billing tables see it is usage / quantity."""
+        end_earlier = acc[2] is not None and (old[2] is None or acc[2] < old[2])
+        for q, u0, u1 in zip(quantities, before, after):
+            if u1 < 0:
+                return (f'billed time is negative: {table} hold usage {u1} for a resource of quantity {q} ({u1 / q} ms) '
+                        f'after old={old} {ctx} accepted={acc}')
+            if u1 != q * self.billed(acc):
+                return (f'{table} bill {u1} for a resource of quantity {q}, the stored row {acc} says quantity x billed duration = '
+                        f'{q * self.billed(acc)} (old={old} {ctx})')
+            if acc[2] is not None and acc[0] is not None and u1 > q * max(0, acc[2] - acc[0]):
+                return f'{table} bill {u1 / q} ms, more than end - start of the ended attempt {acc} (old={old} {ctx})'
+            if u1 < u0 and not (timeout or end_earlier or rollup_null):
+                return (f'usage of a resource of quantity {q} decreased {u0} -> {u1} without an earlier end or activation timeout: '
+                        f'old={old} {ctx} accepted={acc}')
+        return None
+
+    def oracle(self, c, out):
+        if out and out[0].startswith('IMPL-EXC'):
+            return out[0]
+        if 'hist' in c:
+            return self.hist_oracle(c)
+        acc = [None if t == 'N' else (t if i == 3 else int(t)) for i, t in enumerate(out[0].split(' '))]
+        old, new = c['old'], c['new']
+        # the oracle states the step properties for rows satisfying the stored-row invariant (rollup <= end when both set),
+        # which every accepted row satisfies; unreachable `old` rows are skipped
+        if old[1] is not None and old[2] is not None and old[1] > old[2]:
+            return None
+        timeout = new[3] == 'activation_timeout'
+        rollup_null = new[1] is None   # no statement in the repo proposes a NULL rollup over a non-NULL one except via NULL parameters
+        msg = self.step_oracle(old, acc, timeout, rollup_null, f'new={new}')
+        if msg or 'res' not in c:
+            return msg
+        m = re.fullmatch(r'ins=([-\d,]*) upd=([-\d,]*)', out[1])
+        if not m:
+            return f'the four aggregated tables disagree about one attempt: {out[1]} (old={old} new={new} quantities={c["res"]})'
+        u0 = [int(x) for x in m.group(1).split(',')]
+        u1 = [int(x) for x in m.group(2).split(',')]
+        for q, u in zip(c['res'], u0):
+            if u < 0:
+                return (f'billed time is negative: resources of quantity {q} registered while the stored row is {old} are billed {u} '
+                        f'({u / q} ms)')
+            if u != q * self.billed(old):
+                return (f'resources registered while the stored row is {old}: billed {u} for quantity {q}, quantity x billed duration = '
+                        f'{q * self.billed(old)}')
+        return self.usage_oracle(old, acc, c['res'], u0, u1, timeout, rollup_null, f'new={new}')
+
+    def hist_oracle(self, c):
+        for i, st in enumerate(self.run_hist(c)):
+            (old, res0, us0), (acc, res1, us1) = st['old'], st['new']
+            words = st['op'].split()
+            # the reason the op's UPDATEs propose.  deactivate / unschedule issue ONE update that assigns the reason parameter
+            # (deactivate <inst> <reason> ..., unschedule ... cancelled).  started / creating / heartbeat do not assign `reason`, and
+            # started / creating / complete first touch the row through add_attempt's `INSERT ... ON DUPLICATE KEY UPDATE batch_id =
+            # batch_id`: those UPDATEs propose the STORED reason (NEW.reason = OLD.reason), so on an attempt whose stored reason is
+            # activation_timeout they are reports that carry activation_timeout (complete ... <reason> <date> then assigns its own).
+            reasons = {words[2]} if words[0] == 'deactivate' else {'cancelled'} if words[0] == 'unschedule' else \
+                {old[3], words[8]} if words[0] == 'complete' else {old[3]}
+            timeout = 'activation_timeout' in reasons
+            rollup_null = words[0] == 'complete' and words[7] == 'N'      # mark_job_complete sets rollup_time = end_time = NULL
+            ctx = f'op {i + 1} `{st["op"]}`'
+            msg = self.step_oracle(old, acc, timeout, rollup_null, ctx)
+            if msg:
+                return msg
+            qs = [q for _, q in res1]
+            for t in AGG_TABLES:
+                before = [us0[t].get(rid, 0) for rid, _ in res1]
+                after = [us1[t].get(rid, 0) for rid, _ in res1]
+                if not res0:
+                    before = [0] * len(res1)
+                msg = self.usage_oracle(old, acc, qs, before, after, timeout, rollup_null, ctx, t)
+                if msg:
+                    return msg
         return None
 
     def classify(self, c, out):
+        if 'hist' in c:
+            steps = self.run_hist(c)
+            tags = ['layer:history'] + sorted({'hist-op:' + st['op'].split()[0] for st in steps})
+            skew = any(st['new'][0][0] is not None and st['new'][0][2] is not None and st['new'][0][2] < st['new'][0][0] for st in steps)
+            skew_res = any(st['new'][0][0] is not None and st['new'][0][2] is not None and st['new'][0][2] < st['new'][0][0] and st['new'][1]
+                           for st in steps)
+            if skew:
+                tags.append('hist:end<start')
+            if skew_res:
+                tags.append('hist:end<start+resources')
+            if any(st['new'][1] and self.billed(st['new'][0]) > 0 for st in steps):
+                tags.append('hist:billed>0+resources')
+            return (json.dumps(c), tags)
         fired = out[0] != ' '.join(self.enc(v) for v in c['new'])
-        return (json.dumps(c) if fired else None, ['clamped' if fired else 'passthrough'])
+        tags = ['clamped' if fired else 'passthrough', 'layer:trigger-trio' if 'res' in c else 'layer:before-update-only']
+        acc = out[0].split(' ')
+        if len(acc) == 4 and acc[0] != 'N' and acc[2] != 'N' and int(acc[2]) < int(acc[0]):
+            tags.append('pair:end<start')
+            if 'res' in c:
+                tags.append('pair:end<start+resources')
+        if 'res' in c and len(out) > 1 and re.search(r'upd=.*[1-9]', out[1]):
+            tags.append('pair:billed>0+resources')
+        return (json.dumps(c) if fired or 'res' in c else None, tags)
+
+    def shrink(self, c, fails):
+        if 'hist' in c:
+            return {'hist': generic_shrink_list(c['hist'], lambda ops: fails({'hist': ops}))}
+        if 'res' in c and len(c['res']) > 1:
+            for q in c['res']:
+                if fails({**c, 'res': [q]}):
+                    return {**c, 'res': [q]}
+        return c
 
     def extra_coverage(self):
-        return {'translator_crosscheck': 'minisql interpreter' if getattr(self, 'mini', None) else 'independent AST evaluator (minisql not available)'}
+        return {'translator_crosscheck': 'minisql interpreter' if getattr(self, 'mini', None) else 'independent AST evaluator (minisql not available)',
+                'billing_layers': 'trigger trio on one attempt + histories through the real procedures (harness/batchdb World)'
+                if getattr(self, 'bill', None) else 'unavailable (minisql missing)'}
 
 
 PROP = C03()
